@@ -102,7 +102,7 @@ where
     pub fn open(tr: &'a mut Trace, lo: i64, hi: i64) -> Self {
         let len = ((hi as i128) - (lo as i128) + 1) as u64;
         let j = shift_for(len);
-        let desc = format!("\"ev\":\"new\",\"coll\":\"SegExpTree<{}>\",\"len\":{},\"j\":{}", R::NAME, ((len - 1) >> j) + 1, j);
+        let desc = format!("\"ev\":\"new\",\"coll\":\"SegExpTree<{}>\",\"len\":{},\"j\":{},\"dom\":\"{}:{}\"", R::NAME, ((len - 1) >> j) + 1, j, lo, hi);
         tr.pre(&format!("\"op\":\"new\",{},\"out\":\"aborted\"", &desc["\"ev\":\"new\",".len()..]));
         let o = observe(0, || SegExpTree::<R, i32, SV>::new(SegRange { min: R::from_i64(lo), max: R::from_i64(hi) }));
         let mut t = None;
@@ -128,7 +128,7 @@ where
     pub fn insert(&mut self, a: i64, b: i64, e: i32) -> i32 {
         let id = self.next_id;
         self.next_id += 1;
-        let desc = format!("\"op\":\"ins\",\"id\":{},\"a\":{},\"b\":{},\"e\":{}", id, self.off(a), self.off(b), e);
+        let desc = format!("\"op\":\"ins\",\"id\":{},\"a\":{},\"b\":{},\"e\":{},\"raw\":\"{}:{}\"", id, self.off(a), self.off(b), e, a, b);
         self.count_pair(&format!("ins {} {} {}", self.off(a), self.off(b), e));
         self.tr.pre(&format!("{},\"out\":\"aborted\"", desc));
         let t = self.t.as_mut().unwrap();
@@ -143,7 +143,7 @@ where
     pub fn query(&mut self, a: i64, b: i64, time: i32, take: i64, arm: u64, log_chunks: bool) -> bool {
         self.now = time;
         let whole = (a == self.lo && b == self.hi && take < 0) as u8;
-        let desc = format!("\"op\":\"query\",\"a\":{},\"b\":{},\"t\":{},\"take\":{},\"whole\":{}", self.off(a), self.off(b), time, take, whole);
+        let desc = format!("\"op\":\"query\",\"a\":{},\"b\":{},\"t\":{},\"take\":{},\"whole\":{},\"raw\":\"{}:{}\"", self.off(a), self.off(b), time, take, whole, a, b);
         self.count_pair(&format!("query {} {} {} {} {}", self.off(a), self.off(b), time, take, arm));
         self.tr.pre(&format!("{},\"out\":\"aborted\"", desc));
         let t = self.t.as_mut().unwrap();
@@ -164,6 +164,31 @@ where
         let ch = if log_chunks || whole == 1 || unwound { format!(",{}", chunks_json(self.t.as_ref().unwrap())) } else { String::new() };
         self.tr.line(&format!("\"ev\":\"op\",{},\"res\":{},{},\"ncb\":{}{}", desc, list_json(&got), f, o.ncb, ch));
         unwound
+    }
+
+    /// C15: which of the 528 query ranges over [lo, lo+31] yield value `id` (stored with range [a,b])
+    pub fn matrix_row(&mut self, id: i32, a: i64, b: i64) {
+        let lo = self.lo;
+        let t = self.t.as_mut().unwrap();
+        let desc = format!("\"op\":\"matrix\",\"id\":{},\"a\":{},\"b\":{}", id, a - lo, b - lo);
+        self.tr.pre(&format!("{},\"out\":\"aborted\"", desc));
+        let mut row: Vec<i64> = vec![];
+        let mut dup = 0;
+        let o = observe(0, || {
+            for c in 0..32i64 {
+                for d in c..32i64 {
+                    let n = t.iter_by_range(SegRange { min: R::from_i64(lo + c), max: R::from_i64(lo + d) }, 0).filter(|v| v.id == id).count();
+                    if n >= 1 {
+                        row.push(c * 32 + d);
+                    }
+                    if n > 1 {
+                        dup += 1;
+                    }
+                }
+            }
+        });
+        let f = out_fields(&o);
+        self.tr.line(&format!("\"ev\":\"op\",{},\"row\":{},\"dup\":{},{}", desc, list_json(&row), dup, f));
     }
 
     pub fn clear(&mut self) {
@@ -274,26 +299,7 @@ pub fn run_matrix(tr: &mut Trace, from: i64, to: i64) {
             }
             s.clear();
             let id = s.insert(a, b, 5);
-            let t = s.t.as_mut().unwrap();
-            let desc = format!("\"op\":\"matrix\",\"id\":{},\"a\":{},\"b\":{}", id, a, b);
-            s.tr.pre(&format!("{},\"out\":\"aborted\"", desc));
-            let mut row: Vec<i64> = vec![];
-            let mut dup = 0;
-            let o = observe(0, || {
-                for c in 0..32i64 {
-                    for d in c..32i64 {
-                        let n = t.iter_by_range(SegRange { min: c as i32, max: d as i32 }, 0).filter(|v| v.id == id).count();
-                        if n >= 1 {
-                            row.push(c * 32 + d);
-                        }
-                        if n > 1 {
-                            dup += 1;
-                        }
-                    }
-                }
-            });
-            let f = out_fields(&o);
-            s.tr.line(&format!("\"ev\":\"op\",{},\"row\":{},\"dup\":{},{}", desc, list_json(&row), dup, f));
+            s.matrix_row(id, a, b);
         }
     }
 }
@@ -394,6 +400,53 @@ where
                     }
                 }
             }
+        }
+    }
+}
+
+/// re-execute a recorded trace (a replay file written by the check driver) on the current code
+pub fn run_replay<R: Coord>(tr: &mut Trace, text: &str)
+where
+    i64: From<R>,
+{
+    fn pair(s: &str) -> Option<(i64, i64)> {
+        // "lo:hi" where either part may be negative
+        let i = s[1..].find(':')? + 1;
+        Some((s[..i].parse().ok()?, s[i + 1..].parse().ok()?))
+    }
+    let mut sess: Option<SegSession<R>> = None;
+    for line in text.lines() {
+        let ev = fstr(line, "ev");
+        let op = fstr(line, "op");
+        if ev.as_deref() == Some("new") || op.as_deref() == Some("new") {
+            drop(sess.take());
+            if let Some((lo, hi)) = fstr(line, "dom").as_deref().and_then(pair) {
+                sess = Some(SegSession::open(&mut *tr, lo, hi));
+            }
+            continue;
+        }
+        let s = match sess.as_mut() {
+            Some(s) if s.t.is_some() => s,
+            _ => continue,
+        };
+        match op.as_deref() {
+            Some("ins") => {
+                if let Some((a, b)) = fstr(line, "raw").as_deref().and_then(pair) {
+                    s.insert(a, b, fnum(line, "e").unwrap_or(0) as i32);
+                }
+            }
+            Some("query") => {
+                if let Some((a, b)) = fstr(line, "raw").as_deref().and_then(pair) {
+                    s.query(a, b, fnum(line, "t").unwrap_or(0) as i32, fnum(line, "take").unwrap_or(-1), fnum(line, "inj").unwrap_or(0) as u64, true);
+                }
+            }
+            Some("clear") => s.clear(),
+            Some("matrix") => {
+                let (id, a, b) = (fnum(line, "id").unwrap_or(0) as i32, fnum(line, "a").unwrap_or(0), fnum(line, "b").unwrap_or(0));
+                let lo = s.lo;
+                s.matrix_row(id, lo + a, lo + b);
+            }
+            _ => {}
         }
     }
 }
